@@ -150,15 +150,24 @@ pub mod quic {
             ensures final(self).sid() == old(self).sid(), final(self).stops() == old(self).stops().push(error_code);
     }
     pub trait SendStream<B: Buf> {
-        // weakest contracts: any answer at any time
-        fn poll_ready(&mut self, cx: &mut Context<'_>) -> (r: Poll<Result<(), StreamErrorIncoming>>);
-        fn poll_finish(&mut self, cx: &mut Context<'_>) -> (r: Poll<Result<(), StreamErrorIncoming>>);
-        fn send_data<T: Into<WriteBuf<B>>>(&mut self, data: T) -> (r: Result<(), StreamErrorIncoming>);
+        // weakest contracts: any answer at any time.  One ghost bit: `unwritten()` = a buffer accepted by `send_data` whose
+        // write `poll_ready` has not yet reported complete (h3/src/quic.rs: "poll_ready ... until the data is written").
+        spec fn unwritten(&self) -> bool;
+        fn poll_ready(&mut self, cx: &mut Context<'_>) -> (r: Poll<Result<(), StreamErrorIncoming>>)
+            ensures match r { Poll::Ready(Ok(_)) => !final(self).unwritten(), Poll::Pending => final(self).unwritten() == old(self).unwritten(), _ => true };
+        // [C14.fin.after_write] an h3 caller ends a stream only after what it handed over has been written: a FIN behind a
+        // half-written buffer cuts a frame (or a stream-type varint) in two
+        fn poll_finish(&mut self, cx: &mut Context<'_>) -> (r: Poll<Result<(), StreamErrorIncoming>>)
+            requires !old(self).unwritten(),
+            ensures final(self).unwritten() == old(self).unwritten();
+        fn send_data<T: Into<WriteBuf<B>>>(&mut self, data: T) -> (r: Result<(), StreamErrorIncoming>)
+            ensures match r { Ok(_) => final(self).unwritten(), Err(_) => final(self).unwritten() == old(self).unwritten() };
     }
     pub trait OpenStreams<B: Buf> {
         type BidiStream;
         type SendStream: SendStream<B>;
-        fn poll_open_send(&mut self, cx: &mut Context<'_>) -> (r: Poll<Result<Self::SendStream, StreamErrorIncoming>>);
+        fn poll_open_send(&mut self, cx: &mut Context<'_>) -> (r: Poll<Result<Self::SendStream, StreamErrorIncoming>>)
+            ensures match r { Poll::Ready(Ok(s)) => !s.unwritten(), _ => true };
     }
     pub trait Connection<B: Buf>: OpenStreams<B> {
         type RecvStream: RecvStream;
